@@ -264,6 +264,7 @@ def corr_damage(pid, tier, seed):
     hist = {}
     q = tier == "quick"
     for kind, n, extra in (("damagegen", 6 if q else 60, "-mode sweep"), ("damagegen", 40 if q else 1500, "-mode random"),
+                           ("damagegen", 8 if q else 200, "-mode zerotail"),
                            ("flipgen", 16 if q else 300, "-maxflips %d" % (2500 if q else 40000))):
         s, h = gen_scripts(kind, seed, n, rundir, extra=extra)
         scen.extend(s)
@@ -282,7 +283,9 @@ def corr_damage(pid, tier, seed):
                     flips += int(m.group(1))
                     for k, g in zip(("engine_flips", "engine_bytes", "engine_opened", "engine_open_errors", "engine_get_errors", "engine_older_value_served"), m.groups()):
                         hist[k] = hist.get(k, 0) + int(g)
-    oracle = [o for o in r["oracle"] if o.split()[1] in ("C12",)]
+    # the zero-tail scenarios go on writing after the damage: a later Get that returns another key's value shows in the
+    # reference-map oracle (C01 / C02 lines)
+    oracle = [o for o in r["oracle"] if o.split()[1] in ("C12", "C01", "C02")]
     sample = scen[len(scen) // 2] if scen else []
     return {"evaluations": len(scen), "distinct_nontrivial": nontrivial_count(scen, lambda sc: any(("flip" in l or "trunc" in l or "load" in l) for l in sc)),
             "rule": "file layer: harness/vh damagegen (sweep: every bit of every byte of small files; random: flips, block-start header flips, truncations, garbage and zero files on files with multi-block records), each damage followed by a scan and a read of every written position on the real reader and on the model, results compared; engine level: harness/vh flipgen + flipsweep (all bits of all bytes of the data and hint files of small databases; real Open, ListKeys, Get, Fold judged by the oracle); non-trivial = contains a damage operation; distinct by md5",
